@@ -260,6 +260,8 @@ func scRenderMode(items []scItem, mode int) *scRender {
 			add(i, "local ", decl("n", it.N, it.ID, "local"), ", ", decl("m", it.M, it.Mid, "local"), " = ", use("u", it.U, it.B, it.Alt))
 		case "use":
 			add(i, "print(", use("u", it.U, it.B, it.Alt), ")")
+		case "iassign":
+			add(i, use("t", it.T, it.Tb, it.Altt), "[", use("u", it.U, it.B, it.Alt), "] = 1")
 		case "muse":
 			add(i, "print(", use("t", it.T, it.Tb, it.Altt), ".", occ{Slot: "mn", Name: fmt.Sprintf("mm%d", it.Mi), Role: "muse", Kind: "meth"}, ")")
 		case "ret":
